@@ -60,7 +60,7 @@ def check(tier, seed):
         cov.update(evaluations=0, distinct_nontrivial=0, samples=[], rule=RULE)
         vlib.write_evidence(pid, tier, seed, cov, time.time() - t0, 1)
         print("VIOLATION property=%s replay=%s no-failing-input-found" % (pid, p)); return 1
-    n = 720 if tier == "quick" else 6000
+    n = 720 if tier == "quick" else 15000
     scen, meta = [], []
     for _ in range(n):
         name = rng.choice([b"foo", b"bar", b"app.service", b"a.b.c"]); sfx = rng.choice([b"conf", b"cfg"])
